@@ -246,3 +246,72 @@ def _mod_soft(a, b):
     if ai is not None:
         return _ORIG_MOD(a, b)
     return Res(ew2(smod, ar, br))
+
+
+# ------------------------------------------------------------------------------------------------ torch's "sequence as tuple" indexing rule
+# torch (python_variable_indexing.cpp, treatSequenceAsTuple): a non-tuple sequence used as an index is a TUPLE of indices when it is
+# shorter than 32 and contains a tensor, a sequence, a slice, None or Ellipsis; a list of plain ints is ONE advanced index.
+# vk/ops.py:_idx passes every list to numpy, which always reads it as one advanced index.  Scoped correction (proposed for ops.py):
+LISTIDX = [False]
+
+
+@contextlib.contextmanager
+def torch_list_index():
+    old = LISTIDX[0]
+    LISTIDX[0] = True
+    try:
+        yield
+    finally:
+        LISTIDX[0] = old
+
+
+def _seq_as_tuple(i):
+    if LISTIDX[0] and isinstance(i, list) and len(i) < 32 and any(isinstance(j, (torch.Tensor, list, tuple, slice)) or j is None or j is Ellipsis for j in i):
+        # a symbolic 0-dim index tensor inside the sequence is concretised by forking over its feasible values (as ops.py does for lists)
+        from .tensor import SymTensor
+
+        return tuple(HANDLERS[T.__int__][0](j) if (isinstance(j, SymTensor) and j.dim() == 0 and not j.is_concrete()) else j for j in i)
+    return i
+
+
+_ORIG_GET = HANDLERS[T.__getitem__][0]
+_ORIG_SET = HANDLERS[T.__setitem__][0]
+
+
+@reg(T.__getitem__, nometa=True)
+def _getitem_soft(x, i):
+    return _ORIG_GET(x, _seq_as_tuple(i))
+
+
+@reg(T.__setitem__, nometa=True)
+def _setitem_soft(x, i, v):
+    i = _seq_as_tuple(i)
+    if LISTIDX[0] and isinstance(i, tuple):
+        # ops.py cannot assign at a symbolic position: fork over the feasible values of a symbolic 0-dim index (finite domain)
+        from .tensor import SymTensor
+
+        i = tuple(HANDLERS[T.__int__][0](j) if (isinstance(j, SymTensor) and j.dim() == 0 and not j.is_concrete()) else j for j in i)
+    return _ORIG_SET(x, i, v)
+
+
+# ------------------------------------------------------------------------------------------------ torch.min / torch.max (dim): keep the structseq
+# vk/mode.py:_wrap rebuilds any tuple of handler results as a plain tuple, so `torch.min(x, dim).values` raises AttributeError under the
+# engine although ops.py returns torch.return_types.min.  Correction here (proposed for mode.py: `type(res)(out)` for structseq results):
+_ORIG_MIN = HANDLERS[torch.min][0]
+_ORIG_MAX = HANDLERS[torch.max][0]
+
+
+def _keep_structseq(orig, kind):
+    def h(x, *a, **k):
+        from .tensor import SymTensor
+
+        r = orig(x, *a, **k)
+        if isinstance(r, tuple) and len(r) == 2 and all(isinstance(q, Res) for q in r):
+            return kind((SymTensor(r[0].re, None, x.dtype), SymTensor(r[1].re, None, torch.int64)))
+        return r
+
+    return h
+
+
+reg(T.min, torch.min)(_keep_structseq(_ORIG_MIN, torch.return_types.min))
+reg(T.max, torch.max)(_keep_structseq(_ORIG_MAX, torch.return_types.max))
